@@ -68,9 +68,7 @@ PROJECTS = {
                                 "t = find_program('true')\n"
                                 "custom_target('one', output: 'out.txt', command: [t])\n"
                                 "if get_option('opt') == 'bad'\n"
-                                "  subdir('sub')\nendif\n",
-                 'sub/meson.build': "custom_target('two', output: 'out.txt', command: [t])\n"
-                                    "custom_target('three', output: ['x.txt', 'x.txt'], command: [t])\n",
+                                "  custom_target('two', output: 'out.txt', command: [t])\nendif\n",
                  'meson.options': OPTIONS},
 }
 
@@ -363,6 +361,8 @@ def record(w: World, h: History, defaults: T.Dict[str, T.Any]) -> Recorded:
         ops.append({'op': 'write' if (e.op == 'copy' and not e.g) else e.op, 'f': e.f, 'g': e.g})
         points.append({'syscall': e.syscall, 'ordinal': ordinal.get(e.syscall, 0),
                        'killable': e.op in st.MUTATING_OPS and e.syscall in st.KILLABLE and e.ok})
+    if h.failed and not any(o['op'] == 'rename' and o['g'] == CORE for o in ops):
+        raise MachineryError(f'{h.id}: the command was meant to fail after its core data was written, but it never wrote it')
     names = sorted({x for o in ops for x in (o['f'], o['g']) if x} | set(pre_files) | {CORE, CMDL})
     pre = [{'f': x['f'], 'st': x['st'], 'ver': 'none' if x['st'] == 'dir' else 'old' if 'old' in x['vers'] else 'older'}
            for x in pre_proj]
@@ -420,7 +420,7 @@ def kill_case(w: World, rec: Recorded, k: int, keep: bool = False) -> T.Dict[str
         vals = buildoptions(bdir, run) if ok else None
         after = [x for x in project_state(run, [n for n in rec.names if not n.startswith('$TMP/')], rec.maps)]
         after += [project_file(bdir / n, n, rec.maps) for n in existing_state_files(bdir) if n not in rec.names]
-        case = {'id': f'{h.id}@{k}', 'script': 0, 'k': min(k, nops), 'final': final, 'crash': crash, 'reconf': reconf,
+        case = {'id': f'{h.id}@{k}', 'script': 0, 'aborted': h.failed, 'k': min(k, nops), 'final': final, 'crash': crash, 'reconf': reconf,
                 'ok': bool(ok and vals is not None), 'labels': labels_of(vals, rec.maps, rec.script['fresh']),
                 'after': [{'f': x['f'], 'st': x['st']} for x in after],
                 'history': h.id, 'killed_at': rec.script['ops'][k] if not final else {'op': 'end', 'f': '', 'g': ''},
@@ -459,7 +459,7 @@ def replay_case(w: World, core: str, cmdl: str, maps: T.Dict[str, T.Dict[str, T.
         reconf, ok, fout = follow_up(w, h, run)
         vals = buildoptions(bdir, run) if ok else None
         after = project_state(run, existing_state_files(bdir), maps)
-        return {'id': state['id'], 'state': state, 'final': True, 'crash': crash, 'reconf': reconf, 'ok': bool(ok and vals is not None),
+        return {'id': state['id'], 'state': state, 'final': True, 'aborted': False, 'crash': crash, 'reconf': reconf, 'ok': bool(ok and vals is not None),
                 'labels': labels_of(vals, maps, False), 'after': [{'f': x['f'], 'st': x['st']} for x in after],
                 'followup_tail': fout[-1200:] if not ok else '', 'core': core, 'cmdl': cmdl,
                 'traceback': 'Traceback (most recent call last)' in fout}
@@ -470,8 +470,14 @@ def replay_case(w: World, core: str, cmdl: str, maps: T.Dict[str, T.Dict[str, T.
 # ---------------------------------------------------------------------------
 # TLC judging
 
+LAW_CLAUSES = ('CoreNeverTorn', 'NinjaNeverTorn', 'CoreDurable', 'RolledBack')
+
+
 def sig_of(v: T.Dict[str, T.Any]) -> str:
+    """clause : command kind : contents of the two files recovery depends on at the kill (protocol laws: clause : kind)"""
     s = v['sig']
+    if v['clause'] in LAW_CLAUSES and v.get('mode') == 'model':
+        return f"{v['clause']}:{v['kind']}"
 
     def part(stt: str, ver: str) -> str:
         return f'{stt}/{ver}' if stt in ('full', 'partial') else stt
@@ -499,7 +505,7 @@ def tlc_trace(chk: Check, cfg: str, label: str, scripts: T.List[T.Dict[str, T.An
 
 
 def strip_case(c: T.Dict[str, T.Any]) -> T.Dict[str, T.Any]:
-    keys = ('id', 'script', 'k', 'final', 'crash', 'reconf', 'ok', 'labels', 'after', 'state')
+    keys = ('id', 'script', 'k', 'final', 'crash', 'reconf', 'ok', 'labels', 'after', 'state', 'aborted')
     out = {k: c[k] for k in keys if k in c}
     out['labels'] = [{'name': x['name'], 'is': x['is']} for x in c['labels']]
     return out
@@ -562,6 +568,7 @@ def report(chk: Check, v: T.Dict[str, T.Any], case: T.Optional[T.Dict[str, T.Any
 def main(chk: Check) -> None:
     quick = chk.tier == 'quick'
     rnd = random.Random(chk.seed)
+    common.use_repo_meson()         # state files are unpickled with the classes of the tree under test
     chk.rule = ('kill point = entry of a system call that changes a watched state file of the build directory (creat/'
                 'write/sendfile/fsync/rename/unlink/mkdir/rmdir), plus the completed command; non-trivial = distinct '
                 '(history, abstract contents of all state files at the kill) where at least one state file is torn, '
@@ -612,7 +619,6 @@ def main(chk: Check) -> None:
         flagged = tlc_trace(chk, 'TraceBuildDirCrash_Model.cfg', 'TraceBuildDirCrash[recorded scripts]', scripts, [], strict,
                             sum(len(s['ops']) + 1 for s in scripts))
         rec_by_id = {r.hist.id: r for r in recs}
-        law_clauses = ('CoreNeverTorn', 'NinjaNeverTorn', 'CoreDurable', 'RolledBack')
         to_run: T.Dict[T.Tuple[str, int], str] = {}
 
         def kill_index(r: Recorded, k: int) -> int:
@@ -628,7 +634,7 @@ def main(chk: Check) -> None:
         per_sig: T.Dict[T.Tuple[str, str], int] = {}
         for v in flagged:
             r = rec_by_id[v['id']]
-            if v['clause'] in law_clauses:
+            if v['clause'] in LAW_CLAUSES:
                 report(chk, v, None, r)
                 continue
             key = (v['id'], sig_of(v))
@@ -706,6 +712,7 @@ def replay(chk: Check, data: T.Dict[str, T.Any]) -> None:
     """Re-run one recorded kill case (history + kill point) against the current tree."""
     det = data['detail']
     case = det.get('case') or {}
+    common.use_repo_meson()
     with scratch('c09w-') as root:
         w = World(root)
         if case.get('core') is not None:      # a replay state of the reader model
@@ -727,16 +734,20 @@ def replay(chk: Check, data: T.Dict[str, T.Any]) -> None:
             raise MachineryError('replay file names no history')
         defaults = default_values(w, h.project)
         rec = record(w, h, defaults)
-        flagged = tlc_trace(chk, 'TraceBuildDirCrash_Model.cfg', 'replay-model', [rec.script], [], True, len(rec.script['ops']) + 1)
+        pdef = default_values(w, 'plain')
+        run = w.new_run()
+        pvals = buildoptions(build_pre(w, REPLAY_HISTORY, run), run)
+        strict = not replay_case(w, 'full', 'empty', {'old': pvals, 'new': pvals, 'default': pdef})['ok']
+        flagged = tlc_trace(chk, 'TraceBuildDirCrash_Model.cfg', 'replay-model', [rec.script], [], strict, len(rec.script['ops']) + 1)
         for v in flagged:
-            if v['clause'] in ('CoreNeverTorn', 'NinjaNeverTorn', 'CoreDurable', 'RolledBack'):
+            if v['clause'] in LAW_CLAUSES:
                 report(chk, v, None, rec)
         if not case:
             return
         k = len(rec.script['ops']) if case.get('final') else int(case['k'])
         c = kill_case(w, rec, k)
         c['script'] = 1
-        for v in tlc_trace(chk, 'TraceBuildDirCrash_Kill.cfg', 'replay-kill', [rec.script], [strip_case(c)], True, 2):
+        for v in tlc_trace(chk, 'TraceBuildDirCrash_Kill.cfg', 'replay-kill', [rec.script], [strip_case(c)], strict, 2):
             if v['clause'] not in ('CrashStateDiffers', 'ModelDisagrees'):
                 report(chk, v, c, rec)
 
